@@ -5869,8 +5869,15 @@ impl<'a> Tyck<'a> for TyEnvT<su::TermId> {
                     std::panic::Location::caller(),
                 )?;
                 let (binder, binder_ty) = {
-                    let ss::Type::App(ret_app_body_ty) = tycker.type_filled_k(&binder_ty)? else {
-                        unreachable!()
+                    let ret_app_body_ty = match tycker.type_filled_k(&binder_ty)?.to_owned() {
+                        | ss::Type::App(ret_app_body_ty) => ret_app_body_ty,
+                        | _ => tycker.err_k(
+                            TyckError::TypeExpected {
+                                expected: "`Thk _`".to_string(),
+                                found: binder_ty,
+                            },
+                            std::panic::Location::caller(),
+                        )?,
                     };
                     let ss::App(_ret_ty, body_ty) = ret_app_body_ty;
                     (binder, body_ty)
